@@ -8,6 +8,7 @@ import TdVerif.Model.Key
 import TdVerif.Model.Compile
 import TdVerif.Model.DualCoverage
 import TdVerif.Lemmas.C18InferSize
+import TdVerif.Lemmas.C18Slice
 import TdVerif.Lemmas.C18CheckKeys
 import TdVerif.Lemmas.C18ParseTo
 import TdVerif.Gen.DualHelpers
@@ -27,6 +28,52 @@ theorem slice_len_agrees (a b c : Option Int) (len : Int) :
     (Gen.sliceIndices a b c len).map (fun (s, e, st) => SliceSpec.rangeLen s e st)
       = (SliceSpec.indices a b c len).map (fun (s, e, st) => SliceSpec.rangeLen s e st) := by
   rw [slice_indices_eq_cpython]
+
+/-- safety of the compile-path slice arithmetic: for a sequence of length `len ≥ 0`, every element
+`start + step * k` (`0 ≤ k < len(range(start, stop, step))`) of the range computed by the translated
+`_slice_indices` is a valid position `0 ≤ · < len` — whatever start/stop/step (None, negative, out of range). -/
+theorem slice_indices_in_bounds (a b c : Option Int) (len : Int) (hlen : 0 ≤ len) (s e st : Int)
+    (h : Gen.sliceIndices a b c len = .ok (s, e, st)) (k : Int) (hk0 : 0 ≤ k)
+    (hk : k < SliceSpec.rangeLen s e st) :
+    0 ≤ s + st * k ∧ s + st * k < len := by
+  rw [slice_indices_eq_cpython] at h
+  obtain ⟨hst, hp, hn⟩ := SliceSpec.indices_bounds a b c len hlen s e st h
+  exact SliceSpec.range_elem_in_bounds s e st len k hp hn hst hk0 hk
+
+/-- the resulting batch dimension is between 0 and `len` -/
+theorem slice_len_bounds (a b c : Option Int) (len : Int) (hlen : 0 ≤ len) (s e st : Int)
+    (h : Gen.sliceIndices a b c len = .ok (s, e, st)) :
+    0 ≤ SliceSpec.rangeLen s e st ∧ SliceSpec.rangeLen s e st ≤ len := by
+  have h' := h
+  rw [slice_indices_eq_cpython] at h'
+  obtain ⟨hst, hp, hn⟩ := SliceSpec.indices_bounds a b c len hlen s e st h'
+  have h0 := SliceSpec.rangeLen_nonneg s e st hst
+  refine ⟨h0, ?_⟩
+  -- the last element of the range is a valid position and the elements are |st| ≥ 1 apart
+  by_cases hz : SliceSpec.rangeLen s e st = 0
+  · omega
+  · have hk := slice_indices_in_bounds a b c len hlen s e st h (SliceSpec.rangeLen s e st - 1) (by omega) (by omega)
+    have hf := slice_indices_in_bounds a b c len hlen s e st h 0 (by omega) (by omega)
+    by_cases hpos : 0 < st
+    · have := Int.mul_le_mul_of_nonneg_right (show (1 : Int) ≤ st by omega)
+        (show 0 ≤ SliceSpec.rangeLen s e st - 1 by omega)
+      rw [Int.one_mul] at this
+      omega
+    · have hneg : 0 < -st := by omega
+      have h1 := Int.mul_le_mul_of_nonneg_right (show (1 : Int) ≤ -st by omega)
+        (show 0 ≤ SliceSpec.rangeLen s e st - 1 by omega)
+      rw [Int.one_mul] at h1
+      have h2 : (-st) * (SliceSpec.rangeLen s e st - 1) = -(st * (SliceSpec.rangeLen s e st - 1)) := Int.neg_mul _ _
+      omega
+
+/-- `td[:]`-like slices select everything -/
+theorem slice_full (len : Int) (hlen : 0 ≤ len) :
+    Gen.sliceIndices none none none len = .ok (0, len, 1) ∧ SliceSpec.rangeLen 0 len 1 = len := by
+  refine ⟨by rw [slice_indices_eq_cpython]; simp [SliceSpec.indices], ?_⟩
+  unfold SliceSpec.rangeLen
+  by_cases h : 0 < len
+  · simp [h]
+  · simp [h]; omega
 
 mutual
 theorem unravel_tup_agree : ∀ k : Key, unravelTupPy k = unravelTupCpp k
